@@ -87,14 +87,37 @@ theorem log_jet (a0 : ℝ) (h : 0 < a0) : (∀ᶠ x in 𝓝 a0, HasDerivAt Real.
     simp only [one_div]
     exact this.congr_deriv (by simp only [id]; field_simp)
 
-theorem rpow_jet (a0 p : ℝ) (h : a0 ≠ 0) :
+/-- `x ↦ x^p` with its first and second derivative near `a0` — away from 0 for every real `p`, and AT 0
+exactly where `x^p` is twice differentiable there: `p ≥ 2`, and the polynomials `x¹`, `x⁰` -/
+theorem rpow_jet (a0 p : ℝ) (h : a0 ≠ 0 ∨ 2 ≤ p ∨ p = 1 ∨ p = 0) :
     (∀ᶠ x in 𝓝 a0, HasDerivAt (fun x : ℝ => x ^ p) (p * x ^ (p - 1)) x) ∧
     HasDerivAt (fun x : ℝ => p * x ^ (p - 1)) (p * ((p - 1) * a0 ^ (p - 2))) a0 := by
-  refine ⟨?_, ?_⟩
-  · filter_upwards [isOpen_ne.mem_nhds h] with x hx
-    exact Real.hasDerivAt_rpow_const (Or.inl hx)
-  · have := (Real.hasDerivAt_rpow_const (p := p - 1) (Or.inl h)).const_mul p
-    exact this.congr_deriv (by ring_nf)
+  rcases h with h | h | h | h
+  · refine ⟨?_, ?_⟩
+    · filter_upwards [isOpen_ne.mem_nhds h] with x hx
+      exact Real.hasDerivAt_rpow_const (Or.inl hx)
+    · have := (Real.hasDerivAt_rpow_const (p := p - 1) (Or.inl h)).const_mul p
+      exact this.congr_deriv (by ring_nf)
+  · refine ⟨?_, ?_⟩
+    · exact Eventually.of_forall fun x => Real.hasDerivAt_rpow_const (Or.inr (by linarith))
+    · have := (Real.hasDerivAt_rpow_const (x := a0) (p := p - 1) (Or.inr (by linarith))).const_mul p
+      exact this.congr_deriv (by ring_nf)
+  · subst h
+    refine ⟨?_, ?_⟩
+    · exact Eventually.of_forall fun x => Real.hasDerivAt_rpow_const (Or.inr (le_refl _))
+    · have hc : (fun x : ℝ => (1 : ℝ) * x ^ ((1 : ℝ) - 1)) = fun _ => (1 : ℝ) := by
+        funext x; simp
+      rw [hc]
+      exact (hasDerivAt_const a0 (1 : ℝ)).congr_deriv (by ring)
+  · subst h
+    refine ⟨?_, ?_⟩
+    · refine Eventually.of_forall fun x => ?_
+      have hc : (fun x : ℝ => x ^ (0 : ℝ)) = fun _ => (1 : ℝ) := by funext y; simp
+      rw [hc]
+      exact (hasDerivAt_const x (1 : ℝ)).congr_deriv (by ring)
+    · have hc : (fun x : ℝ => (0 : ℝ) * x ^ ((0 : ℝ) - 1)) = fun _ => (0 : ℝ) := by funext x; simp
+      rw [hc]
+      exact (hasDerivAt_const a0 (0 : ℝ)).congr_deriv (by ring)
 
 theorem phi_hasDerivAt (x : ℝ) : HasDerivAt phi (-x * phi x) x := by
   unfold phi
